@@ -22,6 +22,12 @@ CHECKS = {
     text="Search, not proof. The 8x8 boundary grid per range form and per URL is enumerated exhaustively; 24k (quick) to 1M (thorough) further header strings are generated. Five URLs: clear / encrypted / audio vod segment, on-demand video and text file.",
     note=SHIMS + ". Reference body = unranged GET (segments) or the stored file (on-demand route).",
     design_ref="DESIGN.md section 4, C13"),
+ "C01": dict(
+    engine="hypothesis (generated sessions)",
+    technique="generated (stream, template, option vector, phase-controlled clock) sessions; advertised set computed from the manifest alone by an independent MPD reader with exact-rational 5.3.9.5.3 arithmetic; every member fetched at the same instant",
+    text="Search, not proof: 1.2k (quick) to 40k (thorough) live sessions, each fetching the init segment of every Representation, all segments within 3 of either window edge and 12 (quick) / 400 (thorough) interior ones.",
+    note=SHIMS + ". Availability model: vt/mpd.py (shares no code with dashlive).",
+    design_ref="DESIGN.md section 4, C01"),
 }
 
 _PENDING = "check under construction in this build round; not yet registered (see DESIGN.md section 9)"
